@@ -187,8 +187,15 @@ func H_C02_Crash() {
 // the inputs, rename into the oldest slot); reopening succeeds and every key reads as before the cycle.
 func H_C02_CompactionCrash() {
 	vrt.RandPromoteBudget(0)
+	// the inputs are removed with os.RemoveAll, file by file in directory-listing order: both orders
+	listing := vrt.Choose("listing", 2)
+	vrt.ListNewestFirst(listing == 1)
+	defer vrt.ListNewestFirst(false)
 	h := vNewDBEnvU(vUniverse[:1])
 	defer h.fs.Cleanup()
+	if vrt.Symbolic() {
+		h.fs.WalkReverse = listing == 1
+	}
 	vrt.Assert(h.open(vCrashOpts(false)...) == nil, "crash/open-no-error")
 	s := &vSession{h: h}
 	nT := vrt.Range("tables", 2, 3)
